@@ -21,6 +21,13 @@ def fits(x, lo, hi, w=64):
     return T.land(T.cmp("sle", w, T.K(w, lo), x), T.cmp("slt", w, x, T.K(w, hi)))
 
 
+def _sh(t):
+    try:
+        return T.show(t)
+    except Exception:
+        return repr(t)[:80]
+
+
 def run(rep, tier):
     cx = Ctx(rep, "std")
     F = cx.F
@@ -118,6 +125,49 @@ def run(rep, tier):
                     hi = r.get("v")
         ok, found = hi == 32, {"second_slot": "insn(0,0,0,0, imm >> %s)" % hi}
     rep.ob(rd, "second-slot", ok, "second slot of lddw", expected="insn(0, 0, 0, 0, imm >> 32)", found=found)
+
+    # R13.g how numeric text becomes a value (sign, radix, combination), register numbers
+    rg = rep.rule("R13.g", "numeric literals: '-' negates and '+'/none keeps, `0x` digits are read in radix 16, other digits as decimal i64, value = sign * magnitude (wrapping); register numbers are decimal", floor=6)
+    evg = symex.Evaluator(F)
+    def clo(path, *args):
+        try:
+            return evg.run_fn(path, list(args)) or []
+        except Exception as e:      # fail closed below
+            return []
+    sign = {}
+    for nm, arg in (("-", symex.some(T.K(32, ord("-")))), ("+", symex.some(T.K(32, ord("+")))), ("none", symex.NONE)):
+        outs = [v for v, st in clo("asm_parser::integer::{closure#0}", arg) if st.feasible]
+        sign[nm] = T.sval(outs[0]) if len(outs) == 1 and T.is_k(outs[0]) else None
+    rep.ob(rg, "sign", sign == {"-": -1, "+": 1, "none": 1}, "sign closure of asm_parser::integer", expected={"-": -1, "+": 1, "none": 1}, found=sign)
+    def calls_of(path):
+        fn = F.fns.get(path)
+        return [n for n in walk(fn["thir"]["body"]) if n.get("k") == "call"] if fn and fn.get("thir") else []
+    radix = [strip(n["args"][1]).get("v") for n in calls_of("asm_parser::integer::{closure#1}") if (callee_path(n) or "").endswith("<impl u64>::from_str_radix")]
+    rep.ob(rg, "hex-radix", radix == [16], "radix of the `0x` branch", expected=[16], found=radix)
+    cast = clo("asm_parser::integer::{closure#1}::{closure#0}", T.V("m", 64))
+    rep.ob(rg, "hex-cast", len(cast) == 1 and cast[0][0] == T.V("m", 64), "the 64-bit magnitude is reinterpreted as i64 (so 0x8000000000000000.. denote negative values, needed for lddw)",
+           expected="m as i64", found=[_sh(v) for v, _ in cast])
+    def parse_ty(path):
+        out = []
+        for n in calls_of(path):
+            if (callee_path(n) or "").endswith("<impl str>::parse"):
+                out.append(((n.get("callee") or {}).get("generics") or n.get("generics") or [n.get("ty")])[0])
+        return out
+    dec = parse_ty("asm_parser::integer::{closure#2}")
+    rep.ob(rg, "decimal", len(dec) == 1 and "i64" in str(dec[0]), "decimal branch parses an i64 with str::parse (radix 10)", expected="str::parse::<i64>", found=dec)
+    a, b = T.V("s", 64), T.V("x", 64)
+    comb = clo("asm_parser::integer::{closure#3}", ("struct", "tuple", "tuple", (("0", a), ("1", b))))
+    rep.ob(rg, "combine", len(comb) == 1 and comb[0][0] == T.op("mul", 64, a, b), "value = sign.wrapping_mul(magnitude)", expected="s * x", found=[_sh(v) for v, _ in comb])
+    regp = parse_ty("asm_parser::register::{closure#0}")
+    rep.ob(rg, "register", len(regp) == 1 and "i64" in str(regp[0]), "register number parses as a decimal i64", expected="str::parse::<i64>", found=regp)
+    lits = {}
+    for fnm in ("asm_parser::integer", "asm_parser::register"):
+        fn = F.fns.get(fnm)
+        lits[fnm] = sorted({n["v"] for n in walk(fn["thir"]["body"]) if n.get("k") == "lit" and isinstance(n.get("v"), str)}) if fn else None
+        lits[fnm + ":comb"] = sorted({(callee_path(n) or "").rsplit("::", 1)[-1] for n in calls_of(fnm)} & {"hex_digit", "digit", "string", "one_of", "char", "many1", "optional", "attempt"})
+    rep.ob(rg, "grammar", lits.get("asm_parser::integer") == ["-+", "0x"] and {"hex_digit", "digit", "string", "one_of"} <= set(lits["asm_parser::integer:comb"])
+           and lits.get("asm_parser::register") == ["r"] and {"char", "digit"} <= set(lits["asm_parser::register:comb"]),
+           "token literals and digit classes", expected={"integer": ["-+", "0x", "hex_digit", "digit"], "register": ["r", "digit"]}, found=lits)
 
     rf = rep.rule("R13.f", "assemble produces no bytes on error", floor=1)
     evo = symex.Evaluator(F, opaque_calls=lambda p: p.startswith("asm_parser::") or p in ai)
